@@ -5,7 +5,7 @@ From V.lib Require Import Base.
 From V.c07 Require Import C07Model.
 From V.c06 Require Import C06Model C06InitModel C06StructProofs C06CencProofs C06CbcsProofs C06SampleProofs C06InitProofs C06FragModel C06FragProofs.
 From V.c06 Require Import C06SencModel C06SencProofs C06SencAuxProofs C06TrexModel C06TrexProofs C06EntryModel C06EntryProofs.
-From V.c06 Require Import C06FileCbcsProofs C06TimingModel C06TimingProofs C06SinfModel C06SinfProofs.
+From V.c06 Require Import C06SencRepairProofs C06FileCbcsProofs C06TimingModel C06TimingProofs C06SinfModel C06SinfProofs.
 
 (* cenc: crypting twice with the same key, IV and sub-sample map restores the sample — for EVERY block function
    E, every map (empty = whole sample, partial last block, clear runs > 65535, even overlapping or wrapping
@@ -236,14 +236,35 @@ Theorem C06_senc_transport_cbcs :
 Proof. exact senc_transport_cbcs. Qed.
 Print Assumptions C06_senc_transport_cbcs.
 
-(* why `uniform` / prot_uniform is there: a fragment mixing samples with and without a sub-sample map leaves one
-   table for two samples in the SencBox and Encode indexes out of range (reproduced on the real code: see
-   known_findings/C06.json) *)
+(* why `uniform` / prot_uniform was there: with the PINNED SencBox.AddSample (C07Model.senc_add) a fragment mixing
+   samples with and without a sub-sample map left one table for two samples in the SencBox and Encode indexed out of
+   range (known finding C06-F4, reproduced on the real code then; repaired in /repo by ecf1460 + 0b086ee) *)
 Theorem C06_mixed_subsamples_refuted :
   let encs := [mkEnc (repeat 1 16) [] []; mkEnc (repeat 2 16) [mkSsp 5 16] []] in
   exists s, senc_of senc_empty encs = Ok s /\ sn_count s = 2 /\ length (sn_ss s) = 1%nat /\ senc_encode s = Panic.
 Proof. exact mixed_subsamples_refuted. Qed.
 Print Assumptions C06_mixed_subsamples_refuted.
+
+(* the repaired AddSample (C06SencModel.senc_add_r, the text the correspondence now runs against) builds the same
+   SencBox as the pinned one on every uniform fragment, so the theorems above keep describing the code *)
+Theorem C06_senc_repaired_agrees : forall ivsz sub encs,
+  ivsz < 256 -> uniform ivsz sub encs = true -> lenN encs < 4294967296 ->
+  senc_of_r senc_empty encs = senc_of senc_empty encs.
+Proof. exact senc_of_r_uniform. Qed.
+Print Assumptions C06_senc_repaired_agrees.
+
+(* and for ANY fragment - samples with and without sub-sample maps in any order (a video sample without protection
+   range next to normal ones) - the SencBox of the repaired loop, written by Encode and parsed with the IV size it
+   was written with, is exactly the IV list and the per-sample sub-sample lists that C06_iv_sequence_cenc / _cbcs
+   (which never needed uniformity) feed to decryptSamplesInPlace: mixed fragments round-trip *)
+Theorem C06_senc_transport_mixed : forall ivsz encs s box,
+  (ivsz = 0 \/ ivsz = 8 \/ ivsz = 16) -> ivs_sized ivsz encs = true ->
+  forallb subs_ok (map e_ssps encs) = true -> lenN encs < 4294967296 ->
+  senc_of_r senc_empty encs = Ok s -> senc_encode s = Ok box -> lenN box < 4294967296 ->
+  exists s', senc_parse ivsz box = Ok s' /\ sn_ivs s' = decoded_ivs encs /\ sn_ss s' = decoded_subs encs /\
+             sn_count s' = lenN encs.
+Proof. exact senc_transport_mixed. Qed.
+Print Assumptions C06_senc_transport_mixed.
 
 (* ---------------------------------------------------------------- sample location (trex) and whole files *)
 (* the trex is a parameter of BOTH sides: EncryptFragment finds the samples with ipd.Trex, DecryptFragment with the
@@ -578,3 +599,12 @@ Example ex_entry_bytes :
   unprotect_entry_bytes 28 (protect_entry_bytes cc_enca 1836069985 (repeat 0 28) children cc_cbcs t)
   = Ok (entry_bytes 1836069985 (repeat 0 28) children, mkSD (Some 1836069985) (Some cc_cbcs) (Some (Some t))).
 Proof. vm_compute. repeat split; reflexivity. Qed.
+
+(* the fragment of C06-F4 with the repaired AddSample: an empty table for the first sample, Encode succeeds, the box
+   (16 + 18 + 24 bytes) is read back as written *)
+Example ex_mixed_repaired :
+  let encs := [mkEnc (repeat 1 16) [] []; mkEnc (repeat 2 16) [mkSsp 5 16] []] in
+  ivs_sized 16 encs = true /\ forallb subs_ok (map e_ssps encs) = true /\
+  exists s box, senc_of_r senc_empty encs = Ok s /\ sn_ss s = [[]; [mkSsp 5 16]] /\ senc_encode s = Ok box /\
+                senc_parse 16 box = Ok s /\ lenN box = 16 + (16 + 2) + (16 + 2 + 6).
+Proof. split; [reflexivity|]. split; [reflexivity|]. exact mixed_subsamples_repaired. Qed.
